@@ -308,15 +308,6 @@ Definition classify (o : op) : kind :=
   | _ => KRead
   end.
 
-Definition ans_eqb (a b : ans) : bool :=
-  match a, b with
-  | ANone, ANone | ARaised, ARaised => true
-  | ATriples l, ATriples m => list_eqb triple_eqb l m
-  | ANum n, ANum m => N.eqb n m
-  | ANames l, ANames m => list_eqb N.eqb l m
-  | _, _ => false
-  end.
-
 (* the answer of a read is exactly what the endpoint's dataset [now] contains *)
 Definition read_ok (o : op) (now : ep) (a : ans) : bool :=
   match o, a with
